@@ -29,6 +29,7 @@ def main(argv=None):
         import shutil
         atexit.register(shutil.rmtree, path, True)
         build.activate(path)
+        os.environ["VERIF_OVERLAY"] = path
         modname = "vf.%s" % prop.lower()
         mod = importlib.import_module(modname)
         if a.replay:
